@@ -36,6 +36,9 @@ func norm(sb *strings.Builder, v reflect.Value, depth int) {
 		fmt.Fprintf(sb, "%s(%d)", v.Kind(), v.Uint())
 	case reflect.Float32, reflect.Float64:
 		f := v.Float()
+		if f == 0 {
+			f = 0 // -0 and +0 are equal values
+		}
 		if math.IsNaN(f) {
 			fmt.Fprintf(sb, "%s(NaN)", v.Kind())
 		} else {
